@@ -13,6 +13,7 @@ import (
 	"runtime/debug"
 	"slices"
 	"strings"
+	"unsafe"
 
 	"golang.org/x/tools/go/ssa"
 )
@@ -278,7 +279,26 @@ func (fr *frame) visitInstr(instr ssa.Instruction) bool /*returned*/ {
 
 	case *ssa.MakeSlice:
 		n := m.asInt(fr.get(instr.Len), "make len")
-		c := m.asInt(fr.get(instr.Cap), "make cap")
+		var c int64
+		symCap := false
+		if ct, ok := fr.get(instr.Cap).(*Term); ok && !ct.IsConst() {
+			// A symbolic capacity (make([]T, n, lengthFromTheInput)) is not
+			// enumerated value by value: apart from the range check it is
+			// observable only through cap() and through which appends
+			// reallocate.  The slice gets capacity n; a later cap() of it (or of
+			// what is appended to it) is left undecided, and appends always reallocate (code
+			// that depends on two slices sharing spare capacity is outside
+			// the model).
+			st := m.st()
+			bad := st.Or(st.SLt(ct, BV(uint64(n), 64)), st.SLt(BV(1<<24, 64), ct))
+			if m.branch(bad) {
+				fr.tpanic("makeslice: cap out of range")
+			}
+			symCap = true
+			c = n
+		} else {
+			c = m.asInt(fr.get(instr.Cap), "make cap")
+		}
 		if n < 0 || c < n || c > 1<<24 {
 			fr.tpanic("makeslice: len out of range")
 		}
@@ -286,6 +306,18 @@ func (fr *frame) visitInstr(instr ssa.Instruction) bool /*returned*/ {
 		tElt := instr.Type().Underlying().(*types.Slice).Elem()
 		for i := range sl {
 			sl[i] = zero(tElt)
+		}
+		if symCap {
+			// one hidden element gives the slice an identity even when empty
+			sl = make([]value, n+1)
+			for i := range sl {
+				sl[i] = zero(tElt)
+			}
+			sl = sl[:n:n]
+			if m.capUnknown == nil {
+				m.capUnknown = map[*value]bool{}
+			}
+			m.capUnknown[unsafe.SliceData(sl)] = true
 		}
 		fr.env[instr] = sl[:n]
 
